@@ -77,6 +77,7 @@ type pubSumKey struct {
 	fn   *ssa.Function
 	slot int // parameter index (receiver = 0); free variable i is -(i+1)
 	t    pubTaint
+	ext  int // levels outside the module (the walk stops three levels out)
 }
 
 type pubSum struct {
@@ -98,6 +99,7 @@ type pubEngine struct {
 	callers  map[*ssa.Function][]pubSite // static and module-resolved interface call sites
 	asValue  map[*ssa.Function]bool      // function used as a value somewhere (callers not enumerable)
 	freshFn  map[*ssa.Function]map[int]int8
+	helds    map[*ssa.Function]map[ssa.Instruction]held
 	modTypes []types.Type
 }
 
@@ -114,7 +116,7 @@ func (r *Run) pubEngine() *pubEngine {
 		return e
 	}
 	e := &pubEngine{r: r, sums: map[pubSumKey]*pubSum{}, guarded: map[*types.Var]bool{}, impls: map[string][]*ssa.Function{},
-		callers: map[*ssa.Function][]pubSite{}, asValue: map[*ssa.Function]bool{}, freshFn: map[*ssa.Function]map[int]int8{}}
+		callers: map[*ssa.Function][]pubSite{}, asValue: map[*ssa.Function]bool{}, freshFn: map[*ssa.Function]map[int]int8{}, helds: map[*ssa.Function]map[ssa.Instruction]held{}}
 	pubEngines[r.P] = e
 	for _, k := range keysOf(lockTable) {
 		sp := lockTable[k]
@@ -322,6 +324,9 @@ func (e *pubEngine) track(fn *ssa.Function, roots map[ssa.Value]pubTaint, ext in
 	var work []ssa.Value
 	var evs []pubEvent
 	seenEv := map[string]bool{}
+	// mutexes that are part of the object itself (a monitor inside it): a write made while one of
+	// them is write-locked is synchronised by the object, whatever became of the reference
+	ownMu := map[string]bool{}
 	ev := func(kind byte, in ssa.Instruction, t pubTaint, idx int, why string) {
 		k := fmt.Sprintf("%c|%p|%d|%v", kind, in, idx, t)
 		if seenEv[k] {
@@ -442,7 +447,11 @@ func (e *pubEngine) track(fn *ssa.Function, roots map[ssa.Value]pubTaint, ext in
 					break
 				}
 				if f != nil && (pubSyncType(f.Type()) || e.guarded[f]) {
-					break // memory with its own synchronisation / its own lock-table entry
+					// memory with its own synchronisation / its own lock-table entry
+					if n := TypeName(f.Type()); n == "sync.Mutex" || n == "sync.RWMutex" {
+						ownMu[e.r.D.D(x)] = true
+					}
+					break
 				}
 				add(x, t)
 			case *ssa.IndexAddr:
@@ -591,6 +600,24 @@ func (e *pubEngine) track(fn *ssa.Function, roots map[ssa.Value]pubTaint, ext in
 				}
 			}
 		}
+	}
+	if len(ownMu) > 0 {
+		h := e.heldOf(fn)
+		kept := evs[:0]
+		for _, v := range evs {
+			own := false
+			if v.kind == 'm' {
+				for mu, mode := range h[v.in] {
+					if mode == 'W' && ownMu[mu] {
+						own = true
+					}
+				}
+			}
+			if !own {
+				kept = append(kept, v)
+			}
+		}
+		evs = kept
 	}
 	return evs
 }
@@ -782,6 +809,15 @@ func sortedInts(m map[int]pubTaint) []int {
 	return ks
 }
 
+func (e *pubEngine) heldOf(fn *ssa.Function) map[ssa.Instruction]held {
+	if h, ok := e.helds[fn]; ok {
+		return h
+	}
+	h := e.r.heldAt(fn)
+	e.helds[fn] = h
+	return h
+}
+
 func (e *pubEngine) where(in ssa.Instruction) string {
 	return e.r.Where(in)
 }
@@ -789,21 +825,18 @@ func (e *pubEngine) where(in ssa.Instruction) string {
 // summary: what fn does to the object it receives in the given parameter / free variable.
 func (e *pubEngine) summary(fn *ssa.Function, slot int, t pubTaint, ext int) *pubSum {
 	t.deep = false // what the callee does to it does not depend on how the caller reached it
-	key := pubSumKey{fn, slot, t}
+	isMod := c17InModule(fn)
+	if !isMod {
+		ext++
+	}
+	key := pubSumKey{fn, slot, t, ext}
 	if s, ok := e.sums[key]; ok {
 		return s
 	}
 	s := &pubSum{returns: map[int]pubTaint{}}
 	e.sums[key] = s
-	if len(fn.Blocks) == 0 {
+	if len(fn.Blocks) == 0 || ext > 3 {
 		return s
-	}
-	isMod := c17InModule(fn)
-	if !isMod {
-		ext++
-		if ext > 3 {
-			return s
-		}
 	}
 	var root ssa.Value
 	if slot >= 0 {
@@ -927,7 +960,7 @@ func (e *pubEngine) freshResult(c *ssa.Call, idx, depth int) bool {
 // pubFreshAt: forward must-analysis.  At each instruction, the set of guarded-field addresses
 // (origin terms) that hold an object stored as fresh since the write lock named in the value
 // was taken and not released: that object has not been published yet.
-func (e *pubEngine) freshAt(fn *ssa.Function, isField func(*ssa.FieldAddr) bool, mutexOf func(*ssa.FieldAddr) string, h map[ssa.Instruction]held) map[ssa.Instruction]map[string]string {
+func (e *pubEngine) freshAt(fn *ssa.Function, isField func(*ssa.FieldAddr) bool, mutexOf func(*ssa.FieldAddr) string, h map[ssa.Instruction]held, callersHoldW func(*ssa.FieldAddr) bool) map[ssa.Instruction]map[string]string {
 	type state map[string]string // field address term -> mutex term
 	clone := func(s state) state {
 		n := state{}
@@ -975,7 +1008,7 @@ func (e *pubEngine) freshAt(fn *ssa.Function, isField func(*ssa.FieldAddr) bool,
 				if fa, ok := x.Addr.(*ssa.FieldAddr); ok && isField(fa) {
 					k := e.r.D.D(fa)
 					mu := mutexOf(fa)
-					if h[ins][mu] == 'W' && e.fresh(x.Val, 0, map[ssa.Value]bool{}) {
+					if (h[ins][mu] == 'W' || callersHoldW(fa)) && e.fresh(x.Val, 0, map[ssa.Value]bool{}) {
 						cur[k] = mu
 					} else {
 						delete(cur, k)
@@ -1101,7 +1134,7 @@ func (r *Run) lockPublication(sp LockSpec, named *types.Named, st *types.Struct,
 	}
 	sort.Strings(refNames)
 	if len(refNames) == 0 {
-		r.Pass("pub-table:"+short, "-", "no guarded field of "+sp.Struct+" holds a reference: nothing is published through it")
+		r.Pass("published-object:table:"+short, "-", "no guarded field of "+sp.Struct+" holds a reference: nothing is published through it")
 		return
 	}
 	accOf := map[ssa.Instruction]*lockAccess{}
@@ -1248,7 +1281,11 @@ func (r *Run) lockPublication(sp LockSpec, named *types.Named, st *types.Struct,
 		var fresh map[ssa.Instruction]map[string]string
 		freshAt := func() map[ssa.Instruction]map[string]string {
 			if fresh == nil {
-				fresh = e.freshAt(fn, isField, mutexOf, heldOf(fn))
+				fresh = e.freshAt(fn, isField, mutexOf, heldOf(fn), func(fa *ssa.FieldAddr) bool {
+					// a write that LockCheck accepted because every caller holds the (write) lock
+					a := accOf[fa]
+					return a != nil && a.ok && a.write && a.mode == 'c'
+				})
 			}
 			return fresh
 		}
@@ -1439,7 +1476,7 @@ func (r *Run) lockPublication(sp LockSpec, named *types.Named, st *types.Struct,
 			}
 			alias = " (objects move between this field and " + strings.Join(gs, ", ") + " under the same lock)"
 		}
-		key := "pub:" + short + "." + f
+		key := "published-object:" + short + "." + f
 		if os.Getenv("CTVERIF_PUB_DEBUG") != "" { // dev aid: every witness
 			fmt.Fprintf(os.Stderr, "PUB %s.%s: loads=%d stores=%d pre=%d\n", short, f, loads[f], stores[f], pre[f])
 			for _, w := range es {
@@ -1474,13 +1511,13 @@ func (r *Run) lockPublication(sp LockSpec, named *types.Named, st *types.Struct,
 			r.Pass(key, "-", fmt.Sprintf("%s.%s%s: references stay inside the critical sections and the published object is never written (%d loads, %d writes to the field, %d mutations before publication)", sp.Struct, f, alias, loads[f], stores[f], pre[f]))
 		}
 		for _, w := range dedupWitness(readLockMut[f]) {
-			r.Fail("pub-write-mode:"+short+"."+f+"@"+w.fn, w.where, fmt.Sprintf("in-place mutation of the object behind %s.%s under the read lock only: %s (two readers may run this at once)", sp.Struct, f, w.text))
+			r.Fail("published-object:write-mode:"+short+"."+f+"@"+w.fn, w.where, fmt.Sprintf("in-place mutation of the object behind %s.%s under the read lock only: %s (two readers may run this at once)", sp.Struct, f, w.text))
 		}
 		for _, w := range dedupWitness(undecided[f]) {
-			r.Fail("pub-undecided:"+short+"."+f+"@"+w.fn, w.where, fmt.Sprintf("undecided: the object behind %s.%s is %s — what that code does with it cannot be seen", sp.Struct, f, w.text))
+			r.Fail("published-object:undecided:"+short+"."+f+"@"+w.fn, w.where, fmt.Sprintf("undecided: the object behind %s.%s is %s — what that code does with it cannot be seen", sp.Struct, f, w.text))
 		}
 	}
-	r.Check("pub-table:"+short, nLoads+nStores > 0, "-", fmt.Sprintf("%d guarded reference fields of %s (%s): %d loads and %d stores followed", len(refNames), sp.Struct, strings.Join(refNames, ", "), nLoads, nStores))
+	r.Check("published-object:table:"+short, nLoads+nStores > 0, "-", fmt.Sprintf("%d guarded reference fields of %s (%s): %d loads and %d stores followed", len(refNames), sp.Struct, strings.Join(refNames, ", "), nLoads, nStores))
 }
 
 func pubUniq(ws []pubWitness) []pubWitness {
@@ -1532,6 +1569,9 @@ func pubLoadOfField(v ssa.Value) ssa.Instruction {
 	}
 	return nil
 }
+
+// pubReset forgets the counts of earlier passes over the same run (build configurations).
+func (r *Run) pubReset() { delete(pubStats, r) }
 
 // pubFloors: positive controls of the publication discipline over the tables a property ran.
 func (r *Run) pubFloors(fields int) {
